@@ -1,9 +1,15 @@
 #!/bin/bash
-# try_seed.sh <seed-dir-with-patch.diff> <property> [extra check args]: apply to /repo, run the check, always revert.
+# try_seed.sh <seed-dir-with-patch.diff> <property> [extra check args]: apply to /repo, run the check, revert /repo as soon as
+# the check has captured the sources (IR + real-code build), so that the tree is mutated for ~30 s only.
 set -u
 D="$1"; P="$2"; shift 2
-git -C /repo apply "$D/patch.diff" || { echo "patch does not apply"; exit 3; }
-cd /verif && ./check "$P" --no-evidence "$@" > /tmp/try_seed_$P.log 2>&1; rc=$?
-git -C /repo checkout -- .
-grep "VIOLATION\|INCONCLUSIVE\|tier=" /tmp/try_seed_$P.log | cut -c1-220 | head -8
+L=/tmp/try_seed_${P}_$$.log
+while [ -e /tmp/repo_mutated.lock ]; do sleep 1; done; touch /tmp/repo_mutated.lock
+git -C /repo apply "$D/patch.diff" || { echo "patch does not apply"; rm -f /tmp/repo_mutated.lock; exit 3; }
+cd /verif && TRY_SEED=1 ./check "$P" --no-evidence "$@" > $L 2>&1 &
+pid=$!
+for i in $(seq 1 600); do grep -q "sources captured" $L 2>/dev/null && break; kill -0 $pid 2>/dev/null || break; sleep 0.5; done
+git -C /repo checkout -- .; rm -f /tmp/repo_mutated.lock
+wait $pid; rc=$?
+grep "VIOLATION\|INCONCLUSIVE\|tier=" $L | cut -c1-220 | head -8
 echo "exit=$rc"
